@@ -1036,13 +1036,30 @@ pub fn edge_knot_batches(out: &mut crate::driver::JobOut, family: usize) {
                         q.iter().flat_map(|&v| $ip.interp(v).expect("in range").iter().map(|t: &f64| t.to_bits()).collect::<Vec<u64>>()).collect::<Vec<u64>>()
                     };
                 }
-                let ip = mk();
-                let s1 = singles!(ip);
-                let b1: Vec<u64> = ip.interp_array(&qa).expect("in range").iter().map(|t| t.to_bits()).collect();
-                let b2: Vec<u64> = ip.interp_array(&qd).expect("in range").iter().map(|t| t.to_bits()).collect();
-                let s2 = singles!(ip);
-                let fresh = mk();
-                let s3 = singles!(fresh);
+                // (in-range queries on a valid axis: a failure or panic here is a finding, not an engine error)
+                let five = crate::driver::catch(|| {
+                    let ip = mk();
+                    let s1 = singles!(ip);
+                    let b1: Vec<u64> = ip.interp_array(&qa).expect("in range").iter().map(|t| t.to_bits()).collect();
+                    let b2: Vec<u64> = ip.interp_array(&qd).expect("in range").iter().map(|t| t.to_bits()).collect();
+                    let s2 = singles!(ip);
+                    let fresh = mk();
+                    let s3 = singles!(fresh);
+                    (s1, b1, b2, s2, s3)
+                });
+                let (s1, b1, b2, s2, s3) = match five {
+                    Ok(f) => f,
+                    Err(p) => {
+                        out.evals += 1;
+                        out.outcome("edge-knots:not answered");
+                        out.violate(
+                            format!("edge-knots:{}:family{family}:{mask:#x}", $name),
+                            format!("{} over x = {x:?}: in-range queries (knots, their neighbours, midpoints) were not answered: {p}", $name),
+                            Json::obj(vec![("x", Json::f64s(&x))]),
+                        );
+                        continue;
+                    }
+                };
                 out.evals += 5;
                 out.nontrivial += 5;
                 out.transitions += 5 * q.len() as u64;
